@@ -252,6 +252,22 @@ def eval_state(acc, mr, base, Ml, Gl, S, q, V, sidx):
                 acc.resid("fd_inverts_id", r)
                 if not r <= REL:
                     acc.violation("fd_inverts_id", case(qd=qd_c, qdd=qdd, g=g, F=F_c, cancelling=True), {"rel_torque_space": r, "qdd_back": back}, REL)
+        # whole radians handed over as an INTEGER array and as a plain list of ints: the same numbers, the same answers
+        qi = np.array([1, -1, 2, 0, -2, 1, 3][:n], dtype=np.int64)
+        qf = qi.astype(float)
+        qdd_i, qd_i, g_i = V.qdd[n + 1], V.qd[n + 1], V.g[4]
+        want_tau = call("InverseDynamics", mr.InverseDynamics, qf, qd_i, qdd_i, g_i, V.F[7], Ml, Gl, S)
+        want_M = call("MassMatrix", mr.MassMatrix, qf, Ml, Gl, S)
+        for label, qq in (("int64 array", qi), ("list of ints", [int(x) for x in qi])):
+            try:
+                got_tau = np.asarray(mr.InverseDynamics(qq, qd_i, qdd_i, g_i, V.F[7], Ml, Gl, S), float)
+                got_M = np.asarray(mr.MassMatrix(qq, Ml, Gl, S), float)
+            except Exception:
+                continue            # a form the compiled kernels reject outright is C17's business, not a wrong value
+            acc.evals += 2
+            r = max(amax(got_tau - want_tau) / max(1.0, amax(want_tau)), amax(got_M - want_M) / max(1.0, amax(want_M)))
+            if not r <= REL:
+                acc.violation("integer_typed_joint_vector", case(q_form=label, q_int=[int(x) for x in qi]), {"rel": r}, REL)
         qd, g, F = V.qd[-1], V.g[-1], V.F[-1]
         for tau in V.tau:
             a = call("ForwardDynamics", mr.ForwardDynamics, q, qd, tau, g, F, Ml, Gl, S)
